@@ -11,7 +11,7 @@ import vlib, e2e, sync_e2e
 from sync_e2e import T0
 
 THEOREMS = ['C04_idempotent', 'C04_idempotent_executable', 'C04_mirror_plans_nothing', 'C04_link_text_reads_back', 'C04_time_reads_back',
-            'C04_refuted_for_ill_formed_link_text', 'C04_idempotent_walked']
+            'C04_refuted_for_ill_formed_link_text', 'C04_idempotent_walked', 'C04_spec_twice']
 
 LINK_FORMS = [b'a', b'./a', b'a/', b'a//b', b'../x', b'.', b'..', b'x/./y', b'/abs/x', b'//abs', b'a\\b', b'dir/../a', b' ', b'a b', b'\xc3\xa9',
               b'nonexistent', b'./.', b'a/.', b'.hidden', b'...']
@@ -122,6 +122,9 @@ def check(run):
                                                                           'model': {k: v for k, v in m2.items() if k != 'fs'}})[:2000])
             finally:
                 shutil.rmtree(root, ignore_errors=True)
+        # specs with several syncs (chains A -> B, B -> C included) run twice: the second run does nothing (C04_spec_twice)
+        import spec_e2e
+        spec_e2e.twice_family(run, binary, base, 40 if run.tier == 'quick' else 2500, rng)
     finally:
         shutil.rmtree(base, ignore_errors=True)
     return run.finish(search=None)
